@@ -387,9 +387,9 @@ func (f FileInfo) Sys() any           { return f.St }
 type Ctx struct{ E error }
 
 func (c *Ctx) Deadline() (time.Time, bool) { return time.Time{}, false }
-func (c *Ctx) Done() <-chan struct{}        { return nil }
-func (c *Ctx) Err() error                   { return c.E }
-func (c *Ctx) Value(key any) any            { return nil }
+func (c *Ctx) Done() <-chan struct{}       { return nil }
+func (c *Ctx) Err() error                  { return c.E }
+func (c *Ctx) Value(key any) any           { return nil }
 
 var _ context.Context = (*Ctx)(nil)
 
@@ -473,3 +473,19 @@ func ExecScenario(path string, scenario int, text string) {
 	}
 	_ = os.Chmod(path, mode)
 }
+
+// NewContext returns a cancellable context. Symbolically its Done channel is always ready: every
+// select on it may take the cancellation branch (cancellation at any point), the cancel function
+// does nothing.
+func NewContext() (context.Context, func()) {
+	ctx, cancel := context.WithCancel(context.Background())
+	return ctx, cancel
+}
+
+// CancelAfter cancels after the given number of milliseconds in native runs (no effect symbolically).
+func CancelAfter(cancel func(), ms int) {
+	time.AfterFunc(time.Duration(ms)*time.Millisecond, cancel)
+}
+
+// SetTicks bounds how many times a ticker case may be chosen by select on each symbolic path.
+func SetTicks(n int) {}
